@@ -242,7 +242,7 @@ def rules_rule(ctx, prefix):
                       witness=None if w in names else "@%s x{.c .d{}} is emitted as @%s x{.c.d{}}" % (w, w)))
     # curly arm: rule list -> parse_rules, else value routine
     curly = d.arm("CurlyBracketBlock")
-    calls = d.calls(curly) if curly else []
+    calls = d.calls_deep(curly, ctx.sc) if curly else []
     ok = "parse_rules" in calls and value_routine(ctx) in calls
     obs.append(ob("%s.rules/dispatch" % prefix, ok, ctx.where(f), "at-rule blocks go to parse_rules (rule lists) or %s (declaration lists): %s" % (value_routine(ctx), ok)))
     return obs
@@ -787,13 +787,41 @@ def host_rules(ctx, prefix):
     f = wl[0]
     nodes = list(sir.walk(f.body))
     sets = [(i, n["r"].get("v")) for i, n in enumerate(nodes) if n.get("k") == "assign" and sir.expr_str(n["l"]) == "self.using_low_priority"]
-    call = [i for i, n in enumerate(nodes) if n.get("k") == "call" and sir.expr_str(n["f"]) == "f"]
-    opens = [i for i, n in enumerate(nodes) if n.get("k") == "mcall" and n["m"] == "append_raw" and n["args"] and n["args"][0].get("v") == "{"]
-    closes = [i for i, n in enumerate(nodes) if n.get("k") == "mcall" and n["m"] == "append_raw" and n["args"] and n["args"][0].get("v") == "}"]
-    loops = [n for n in nodes if n.get("k") == "for" and "cur_at_rule_stacks" in sir.expr_str(n["e"])]
+    call = [i for i, n in enumerate(nodes) if n.get("k") == "call" and sir.expr_str(n["f"]) in f.param_names()]
     early = [n for n in nodes if n.get("k") in ("return", "try")]
-    ok = len(sets) == 2 and sets[0][1] is True and sets[1][1] is False and call and sets[0][0] < call[0] < sets[1][0] and opens and closes and opens[0] < call[0] < closes[0] and len(loops) == 2 and not early
-    obs.append(ob("%s.pair/low-priority" % prefix, bool(ok), ctx.where(f), "flag set (%s) / wrappers opened (@%s) before the body (@%s), wrappers closed (@%s) / flag cleared after it, one wrapper per enclosing at-rule on both sides, no early exit: %s" % (sets, opens[:1], call[:1], closes[:1], bool(ok))))
+    # loops over the enclosing at-rules (iterating the stack, or counting to its length), and the text each iteration appends
+    locs = {n["pat"]["name"]: n["init"] for n in nodes if n.get("k") == "local" and n["pat"].get("k") == "p_ident" and n.get("init") is not None}
+
+    def over_stack(e, depth=0):
+        t = sir.expr_str(e)
+        if "cur_at_rule_stacks" in t:
+            return True
+        return depth < 2 and any(x.get("k") == "path" and len(x["segs"]) == 1 and x["segs"][0] in locs and over_stack(locs[x["segs"][0]], depth + 1) for x in sir.walk(e))
+
+    def appended_text(body):
+        """literal skeleton appended to the low-priority output by one iteration (holes as \0)"""
+        out = ""
+        inner = {n["pat"]["name"]: n["init"] for n in sir.walk(body) if n.get("k") == "local" and n["pat"].get("k") == "p_ident" and n.get("init") is not None}
+        for x in sir.walk(body):
+            if x.get("k") == "mcall" and x["m"] == "append_raw" and x["args"]:
+                a = sir.strip_ref(x["args"][0])
+                if a.get("k") == "path" and len(a["segs"]) == 1 and a["segs"][0] in inner:
+                    a = inner[a["segs"][0]]
+                fc = sir.format_call(a)
+                if a.get("k") == "lit" and a.get("t") == "str":
+                    out += a["v"]
+                elif fc is not None:
+                    out += "".join(p_[1] if p_[0] == "lit" else "\x00" for p_ in fc)
+                else:
+                    out += "\x00"
+        return out
+    loops = [(i, n) for i, n in enumerate(nodes) if n.get("k") == "for" and over_stack(n["e"])]
+    pre = [(i, appended_text(n["body"])) for i, n in loops if call and i < call[0]]
+    post = [(i, appended_text(n["body"])) for i, n in loops if call and i > call[0]]
+    ok = (len(sets) == 2 and sets[0][1] is True and sets[1][1] is False and bool(call) and sets[0][0] < call[0] < sets[1][0]
+          and len(pre) == 1 and pre[0][1] == "\x00{" and len(post) == 1 and post[0][1] == "}" and not early)
+    obs.append(ob("%s.pair/low-priority" % prefix, bool(ok), ctx.where(f), "flag set %s around the body; before it every enclosing at-rule is replayed as %r, after it closed by %r (one each per stack entry), no early exit: %s" % (
+        [v for _i, v in sets], [t for _i, t in pre], [t for _i, t in post], bool(ok))))
     # item + "{" per stack entry and same number of "}"
     wr = [f2 for f2 in sc.fns if f2.name == "wrap_at_rule_output" and f2.body]
     if wr:
@@ -893,7 +921,8 @@ def host_rules(ctx, prefix):
     roles = _roles(ctx)
     d = roles["at-prelude"]
     curly = d.arm("CurlyBracketBlock")
-    ok = curly is not None and any(x.get("k") == "mcall" and x["m"] == "wrap_at_rule_output" for x in sir.walk(curly.body)) and any(x.get("k") == "mcall" and x["m"] == "get_output_segment" for x in sir.walk(curly.body))
+    deep = d.calls_deep(curly, ctx.sc) if curly is not None else []
+    ok = curly is not None and "wrap_at_rule_output" in deep and "get_output_segment" in deep
     obs.append(ob("%s.pair/at-rule-capture" % prefix, ok, ctx.where(d.fn), "the at-rule prelude text is captured from the output and kept on the stack while its block is parsed: %s" % ok))
     obs += capture_offsets_rule(ctx, prefix)
     return obs
@@ -966,6 +995,29 @@ def import_rules(ctx, prefix):
     obs.append(ob("%s.wrap/media" % prefix, media, where, "media conditions are wrapped in @media: %s" % media))
     # pairing: every wrapper opened is pushed, the stack is drained after the comment
     nodes = list(sir.walk(f.body))
+    def drains(e, stack_name, depth=0):
+        """does statement/expression `e` close every block on `stack_name`, innermost first?"""
+        if e is None:
+            return False
+        closes = lambda b: any(x.get("k") == "mcall" and x["m"] == "append_nested_block_close" for x in sir.walk(b))
+        if e.get("k") == "while" and e["cond"].get("k") == "let" and sir.expr_str(e["cond"]["e"]).replace(" ", "") == "%s.pop()" % stack_name and "Some" in sir.pat_str(e["cond"]["pat"]):
+            return closes(e["body"])
+        if e.get("k") == "for":
+            it = sir.expr_str(e["e"]).replace(" ", "")
+            if it in ("%s.drain(..).rev()" % stack_name, "%s.into_iter().rev()" % stack_name, "%s.iter().rev()" % stack_name) and closes(e["body"]):
+                return True
+        if e.get("k") == "try":
+            return drains(e["e"], stack_name, depth)
+        if e.get("k") == "call" and depth < 2:
+            cands = [g for g in ctx.sc.fns if g.name == sir.call_name(e) and g.body]
+            if len(cands) == 1:
+                pn = cands[0].param_names()
+                for pname, a in zip(pn, e["args"]):
+                    if pname and sir.expr_str(sir.strip_ref(a)) == stack_name:
+                        body = cands[0].body["stmts"]
+                        return any(drains(st_.get("e") if st_.get("k") == "expr" else st_, pname, depth + 1) for st_ in body)
+        return False
+
     pushes = [i for i, n in enumerate(nodes) if n.get("k") == "mcall" and n["m"] == "push" and sir.expr_str(n["recv"]) == "close_stack"]
     opens = [i for i, n in enumerate(nodes) if n.get("k") == "local" and n.get("init") is not None and n["init"].get("k") == "mcall" and n["init"]["m"] == "append_nested_block" and "CurlyBracketBlock" in sir.expr_str(nodes[i - 1] if i else n) + sir.expr_str(n)]
     curly_opens = []
@@ -973,15 +1025,14 @@ def import_rules(ctx, prefix):
         if n.get("k") == "local" and n["pat"].get("name") == "st" and n.get("init") is not None and "CurlyBracketBlock" in sir.expr_str(n["init"]):
             curly_opens.append(i)
     comment_i = [i for i, n in enumerate(nodes) if n.get("k") == "call" and "Token::Comment" in (sir.call_path(n) or "")]
-    drain = [i for i, n in enumerate(nodes) if n.get("k") == "while" and "close_stack.pop()" in sir.expr_str(n["cond"]).replace(" ", "")]
+    drain = [i for i, n in enumerate(nodes) if n.get("k") in ("while", "for", "call") and drains(n, "close_stack")]
     ok = len(pushes) == len(curly_opens) and len(pushes) >= 2 and comment_i and drain and any(dd > comment_i[0] for dd in drain)
     # every exit after the first push is directly preceded by a full drain (`while let Some(close) = close_stack.pop() { ..close(close).. }`)
     pm = sir.parent_map(f.body)
 
     def is_drain(st):
         e = st.get("e") if st.get("k") == "expr" else st
-        return (e is not None and e.get("k") == "while" and e["cond"].get("k") == "let" and sir.expr_str(e["cond"]["e"]).replace(" ", "") == "close_stack.pop()"
-                and "Some" in sir.pat_str(e["cond"]["pat"]) and any(x.get("k") == "mcall" and x["m"] == "append_nested_block_close" for x in sir.walk(e["body"])))
+        return drains(e, "close_stack")
 
     def prev_stmt(n):
         cur = n
